@@ -888,7 +888,10 @@ def parse_strace(text, cwd):
         if call in ("symlink", "symlinkat"):
             use = paths[-1:]
         for p in use:
-            p = p.encode().decode("unicode_escape") if "\\" in p else p
+            if "\\" in p:
+                # strace writes every byte outside printable ASCII as an octal escape: back to the bytes, then to a file name
+                import codecs
+                p = os.fsdecode(codecs.escape_decode(p.encode("ascii", "backslashreplace"))[0])
             out.append((call, os.path.normpath(p if os.path.isabs(p) else os.path.join(cwd, p))))
     return out
 
@@ -912,6 +915,12 @@ class StraceStream(CommandStream):
         for k in sorted(READ_ONLY) + ["lint-file"]:
             yield {"tree": {"git": True, "tracked": True, "lic": "dep5", "sibs": [], "sl": True}, "terms": [],
                    "cmds": [{"cmd": k, "named": ["a.c", "l_in.c"]} if k == "lint-file" else {"cmd": k}]}
+        for dl in sorted(DEP5_LINKS):
+            yield {"tree": {"git": rng.random() < 0.5, "tracked": False, "lic": "dep5", "sibs": [], "sl": False, "dl": dl}, "terms": [], "cmds": [{"cmd": "convert-dep5"}]}
+        for k in ("latin1", "cont", "nfd", "astral"):
+            yield {"tree": {"git": True, "tracked": True, "lic": "none", "sibs": [], "sl": False,
+                            "odd": {"cov": ["nfc", "comb", "space"], "ign": [k], "igndir": [k], "twin": "nfd" if k != "nfd" else "nfc"}},
+                   "terms": [], "cmds": [{"cmd": "annotate", "dot": None, "recursive": True, "named": ["oddd"]}]}
         for _ in range(45):
             case = {"tree": self.gen_tree(rng), "terms": rng.choice([[], ["*/"]])}
             case["cmds"] = [gen_cmd(rng, case, False)]
@@ -935,8 +944,10 @@ class StraceStream(CommandStream):
             # resolve through symbolic links on the final tree: a write through a link counts at its target
             resolved = []
             for call, p in calls:
-                real = p if call in ("unlink", "unlinkat", "rename", "renameat", "renameat2", "symlink", "symlinkat") else \
-                    os.path.join(os.path.realpath(os.path.dirname(p)), os.path.basename(p)) if not os.path.islink(p) else os.path.realpath(p)
+                # calls that act on a directory entry (unlink, rename, symlink) act on the entry itself -- in the directory its
+                # parent path leads to --, the others on what the path leads to
+                real = os.path.join(os.path.realpath(os.path.dirname(p)), os.path.basename(p)) \
+                    if call in ("unlink", "unlinkat", "rename", "renameat", "renameat2", "symlink", "symlinkat") or not os.path.islink(p) else os.path.realpath(p)
                 resolved.append((call, p, real))
         self.side[json.dumps(case, sort_keys=True)] = (s0, s1, g0, g1, resolved, top, r.returncode, r.stderr[-300:])
         return "%d|%d write-like calls" % (r.returncode, len(resolved))
@@ -948,17 +959,20 @@ class StraceStream(CommandStream):
         cmd = case["cmds"][0]
         why = judge(case, cmd, s0, s1, g0, g1)
         if why:
-            return why
+            return why.encode("utf-8", "backslashreplace").decode("utf-8")
         al, _ = allowed_for(case, cmd, s0)
         proj = os.path.join(top, "proj")
         for call, p, real in calls:
             if real.startswith(WHITELIST) or "__pycache__" in real or real == log_path(top):
                 continue
             rel = os.path.relpath(real, proj)
+            if rel in al and call in ("unlink", "unlinkat") and cmd["cmd"] == "convert-dep5":
+                continue     # the entry .reuse/dep5, wherever `.reuse` leads
             if rel.startswith(".."):
                 return "syscall-outside: `reuse %s` issued %s on %s (outside the project)" % (" ".join(argv_of(case, cmd)), call, real)
             if rel not in al:
-                return "syscall-stray: `reuse %s` issued %s on %s, which is not among %s" % (" ".join(argv_of(case, cmd)), call, rel, sorted(al)[:8])
+                return ("syscall-stray: `reuse %s` issued %s on %s, which is not among %s" % (" ".join(argv_of(case, cmd)), call, rel, sorted(al)[:8])
+                        ).encode("utf-8", "backslashreplace").decode("utf-8")
         return None
 
     def nontrivial(self, case, impl_out):
